@@ -469,6 +469,34 @@ int32_t jls_core_wr_end(struct jls_core_s * self) {
     return 0;
 }
 
+// A chunk that carries a payload header holds the entries that header announces.
+static int32_t rd_chunk_entries_validate(const struct jls_chunk_header_s * hdr, const uint8_t * payload) {
+    switch (hdr->tag) {
+        case JLS_TAG_TRACK_FSR_DATA:            /* intentional fall-through */
+        case JLS_TAG_TRACK_FSR_INDEX:           /* intentional fall-through */
+        case JLS_TAG_TRACK_FSR_SUMMARY:         /* intentional fall-through */
+        case JLS_TAG_TRACK_ANNOTATION_INDEX:    /* intentional fall-through */
+        case JLS_TAG_TRACK_ANNOTATION_SUMMARY:  /* intentional fall-through */
+        case JLS_TAG_TRACK_UTC_INDEX:           /* intentional fall-through */
+        case JLS_TAG_TRACK_UTC_SUMMARY:
+            break;
+        default:
+            return 0;
+    }
+    struct jls_payload_header_s h;
+    if (hdr->payload_length < sizeof(h)) {
+        JLS_LOGW("chunk tag %d: payload too short for its header", (int) hdr->tag);
+        return JLS_ERROR_MESSAGE_INTEGRITY;
+    }
+    memcpy(&h, payload, sizeof(h));
+    uint64_t bits = ((uint64_t) h.entry_count) * h.entry_size_bits;
+    if (((bits + 7) / 8) > (hdr->payload_length - sizeof(h))) {
+        JLS_LOGW("chunk tag %d: %" PRIu32 " entries of %d bits exceed the payload", (int) hdr->tag, h.entry_count, (int) h.entry_size_bits);
+        return JLS_ERROR_MESSAGE_INTEGRITY;
+    }
+    return 0;
+}
+
 int32_t jls_core_rd_chunk(struct jls_core_s * self) {
     while (1) {
         self->chunk_cur.offset = jls_raw_chunk_tell(self->raw);
@@ -480,7 +508,7 @@ int32_t jls_core_rd_chunk(struct jls_core_s * self) {
             self->buf->cur = self->buf->start;
             self->buf->length = self->chunk_cur.hdr.payload_length;
             self->buf->end = self->buf->start + self->buf->length;
-            return 0;
+            return rd_chunk_entries_validate(&self->chunk_cur.hdr, self->buf->start);
         } else {
             return rc;
         }
@@ -1046,6 +1074,10 @@ int32_t jls_core_rd_fsr_data0(struct jls_core_s * self, uint16_t signal_id, int6
     ROE(jls_core_rd_fsr_level1(self, signal_id, start_sample_id));
     struct jls_fsr_index_s * idx = (struct jls_fsr_index_s *) self->rd_index->start;
     int64_t idx_entry = (start_sample_id - idx->header.timestamp) / signal_def->samples_per_data;
+    if ((start_sample_id < idx->header.timestamp) || (idx_entry >= (int64_t) idx->header.entry_count)) {
+        JLS_LOGW("index chunk does not cover sample %" PRIi64, start_sample_id);
+        return JLS_ERROR_NOT_FOUND;
+    }
     int64_t offset = idx->offsets[idx_entry];
     struct jls_fsr_data_s * r;
 
